@@ -16,7 +16,7 @@ import ast
 
 from ..model import AnalysisError
 from ..terms import T, walk_terms
-from ..walk import (data_derives, ret_alts, call_parts, call_arg, is_call_to, const_val, NOVAL, strip_views, unwrap_gamma, norm_stmt, shape_dim, loop_role, newaxis_insertions)
+from ..walk import (data_derives, ret_alts, call_parts, call_arg, is_call_to, const_val, NOVAL, strip_views, unwrap_gamma, norm_stmt, shape_dim, loop_role, newaxis_insertions, swaps_first_two_of_three, axis_reordering, index_chain)
 from .. import loop as LP
 from .. import sel
 
@@ -147,8 +147,18 @@ def is_identity_columns(t):
     t = strip_views(t)
     if is_call_to(t, 'numpy.repeat'):
         return is_identity_columns(call_arg(t, 0)) and const_val(call_arg(t, None, 'axis')) in (1, -1)
+    if is_call_to(t, 'numpy.tile'):
+        # np.tile(arange(K)[:, None], (1, F)): repeated along the second axis only
+        reps = const_val(call_arg(t, 1, 'reps'))
+        r = strip_views(call_arg(t, 1, 'reps'))
+        along_second = (r.op in ('tuple', 'list') and len(r.args[0]) == 2 and const_val(r.args[0][0]) == 1)
+        return is_identity_columns(call_arg(t, 0)) and along_second
     if t.op == 'sub':
-        return is_call_to(strip_views(t.args[0]), 'numpy.arange') and len(call_parts(strip_views(t.args[0]))[1]) == 1
+        ins = newaxis_insertions(t)
+        if ins is not None and ins[1] in ([1], [-1]):
+            return is_call_to(strip_views(ins[0]), 'numpy.arange') and len(call_parts(strip_views(ins[0]))[1]) >= 1 and \
+                len([x for x in call_parts(strip_views(ins[0]))[1]]) == 1
+        return False
     return False
 
 
@@ -162,6 +172,9 @@ def check_apply_mapping(run, A):
         idx = rets[0].args[1]
         items = idx.args[0] if idx.op == 'tuple' else ()
         cols = strip_views(items[1]) if len(items) == 2 else None
+        ins_ = newaxis_insertions(cols) if cols is not None else None
+        if ins_ is not None and ins_[1] == [0]:
+            cols = strip_views(ins_[0])         # arange(F)[None, :] broadcasts exactly like arange(F) against the (K, F) mapping
         ok = len(items) == 2 and strip_views(items[0]).op == 'param' and strip_views(items[0]).args[0] == 'mapping' and is_call_to(cols, 'builtin.range', 'numpy.arange') \
             and len(call_parts(cols)[1]) == 1 and not call_parts(cols)[2]
         if ok:
@@ -207,8 +220,9 @@ def check_inline_em_alignment(run, A):
             return t.args[0] == pname
         if t.op == 'gamma':
             return all(value_preserving(x, pname, depth + 1) or strip_views(x).op == 'const' for x in (t.args[1], t.args[2]))
-        if is_call_to(t, 'numpy.transpose'):
-            return const_val(call_arg(t, 1)) == (1, 0, 2) and value_preserving(call_arg(t, 0), pname, depth + 1)
+        sw = swaps_first_two_of_three(t)
+        if sw is not None:
+            return value_preserving(sw, pname, depth + 1)
         if call_parts(t)[0] == 'method:apply_mapping':
             return value_preserving(call_arg(t, 1), pname, depth + 1)
         return False
@@ -224,7 +238,7 @@ def check_inline_em_alignment(run, A):
     run.check(ok_a and ok_q, 'R-PERM', 'inline EM alignment: results are the inputs, transposed and gathered only', fn.loc(), '',
               f'returned affiliation value-preserving: {ok_a}; quadratic form: {ok_q} (something else than transpose / apply_mapping touches the values)', construct=f'R-PERM::{q}::value-preserving')
     # the mapping is computed from the (K, F, T)-transposed affiliation
-    ok_in = is_call_to(strip_views(call_arg(maps[0], 1)), 'numpy.transpose') and const_val(call_arg(strip_views(call_arg(maps[0], 1)), 1)) == (1, 0, 2)
+    ok_in = swaps_first_two_of_three(call_arg(maps[0], 1)) is not None
     run.check(ok_in, 'R-PERM', 'inline EM alignment: aligner sees (K, F, T)', fn.loc(maps[0].node), '', 'calculate_mapping is not called on the (1, 0, 2)-transposed affiliation', construct=f'R-PERM::{q}::layout')
 
 
@@ -290,9 +304,12 @@ def check_calculate_mappings(run, A):
     ok_app = ok_chain = False
     if ok:
         root = strip_views(rets[0].args[0])
-        if is_call_to(root, 'numpy.append'):
-            first, second = call_arg(root, 0), call_arg(root, 1)
-            ok_app = is_identity_columns(first) and call_parts(strip_views(second))[0] == P + '_mapping_from_score_matrix' and const_val(call_arg(root, None, 'axis')) in (-1, 1)
+        if is_call_to(root, 'numpy.concatenate'):          # (np.append(a, b, axis) is built as this form)
+            seq = strip_views(call_arg(root, 0, 'arrays'))
+            parts = list(seq.args[0]) if seq.op in ('tuple', 'list') else []
+            if len(parts) == 2:
+                first, second = parts
+                ok_app = is_identity_columns(first) and call_parts(strip_views(second))[0] == P + '_mapping_from_score_matrix' and const_val(call_arg(root, None, 'axis')) in (-1, 1)
         st = [e for e in g.events if e.kind == 'store']
         if len(st) == 1:
             base, idx, val = st[0].term.args
@@ -377,9 +394,11 @@ def check_optimal_and_inline_pa(run, A):
         if lp.op == 'binop' and lp.args[0] == 'Add':
             a, b = strip_views(lp.args[1]), strip_views(lp.args[2])
             for sp, sc in ((a, b), (b, a)):
-                if sp.op == 'sub' and data_derives(sp, 'spatial_log_pdf') and sc.op == 'sub' and data_derives(sc, 'spectral_log_pdf') and sp.args[1].op == 'tuple':
-                    mid = strip_views(sp.args[1].args[0][1])
-                    okp = mid.op == 'mu' or any(x.op == 'mu' for x in unwrap_gamma(mid))
+                if sp.op == 'sub' and data_derives(sp, 'spatial_log_pdf') and sc.op == 'sub' and data_derives(sc, 'spectral_log_pdf'):
+                    base, items = index_chain(sp)
+                    if base.op == 'param' and base.args[0] == 'spatial_log_pdf' and len(items) == 3 and isinstance(items[1], T):
+                        mid = strip_views(items[1])
+                        okp = mid.op == 'mu' or any(isinstance(x, T) and x.op == 'mu' for x in unwrap_gamma(mid))
     run.check(okp, 'R-SEL', 'inline spatial/spectral alignment: posterior uses the best permutation found', fn2.loc(), '', 'the spatial stream is not indexed by the arg-max permutation',
               construct=f'R-SEL::{q2}::use-best')
     # the criterion is evaluated on the very log-pdf that is finally used: candidate(perm) and final(best) are the same expression
